@@ -499,3 +499,4 @@ def bf2_tagtypes(vc):
 # input with ValueError - never another exception type
 from pyvc.harness import reuse as _reuse_c14  # noqa: E402
 _reuse_c14("C16/adapter.bad-lengths", "C14/AES128Proxy.bad-lengths=>ValueError")
+_reuse_c14("C05/BytesReader", "C14/BytesReader.refusals-are-the-owner's-format-error")
